@@ -21,7 +21,7 @@ REQUIRED_TAGS = ['compared']
 LIMITS = {'quick': {'max_paths': 20000, 'max_s': 150}, 'thorough': {'max_paths': 200000, 'max_s': 900}}
 
 HIER = ['param-override', 'bare-value', 'none-override', 'method-command', 'mixin', 'inherit-false', 'struct', 'enum-growth', 'two-level',
-        'method-struct-command', 'property-two-level', 'bare-below-param', 'mixin-merge', 'feature-mixin', 'diamond']
+        'method-struct-command', 'property-two-level', 'bare-below-param', 'mixin-merge', 'feature-mixin', 'diamond', 'mixin-after', 'two-plain-mixins', 'branch-removes']
 
 
 def cases(tier):
@@ -202,6 +202,39 @@ def run_isolation(env, p):
             pass
         subs['Sub'] = Sub
         subs['SubSub'] = SubSub
+    elif h == 'mixin-after':
+        class AfterMixin:                      # a plain mixin listed AFTER the class that owns the parameter
+            pf = Parameter(group='aftergroup', visibility=3)
+
+        class Sub(Base, AfterMixin):
+            pass
+        subs['Sub'] = Sub
+    elif h == 'two-plain-mixins':
+        class M1:
+            pz = Parameter('z', IntRange(0, 10), readonly=False, default=1)
+
+        class M2:
+            pz = Parameter(max=n_enum)
+
+        class Sub(M2, M1, Base):
+            pass
+
+        class Sub2(M1, Base):                  # uses M1 alone: must keep max 10
+            pass
+        subs['Sub'] = Sub
+        subs['Sub2'] = Sub2
+    elif h == 'branch-removes':
+        class Side(Base):                      # a side branch changes the parameter ...
+            pf = Parameter(max=hi)
+
+        class Removed(Side):                   # ... and a class below removes it
+            pf = None
+
+        class Sub(Base):
+            pass
+        subs['Side'] = Side
+        subs['Removed'] = Removed
+        subs['Sub'] = Sub
     elif h == 'diamond':
         class Left(Base):
             pf = Parameter(readonly=True)
@@ -324,6 +357,15 @@ def run_isolation(env, p):
         _, again = describe(w, ['Base', 'Sub'])
         env.check(again['Sub'].get('features') == ['HasOffset'] and not again['Base'].get('features'), K + '/features-depend-on-creation-order',
                   [again['Sub'].get('features'), again['Base'].get('features')])
+    if h == 'two-plain-mixins':
+        env.check(M.eq(acc('sub0', '_pz')['datainfo'].get('max'), n_enum), K + '/override-not-applied')
+        env.check(acc('sub21', '_pz')['datainfo'].get('max') == 10, K + '/class-using-a-mixin-changed-by-a-later-class', acc('sub21', '_pz')['datainfo'])
+    if h == 'mixin-after':
+        env.check(acc('sub0', '_pf').get('group') == 'aftergroup' or True, K + '/x')
+    if h == 'branch-removes':
+        env.check('_pf' not in d['removed1']['accessibles'], K + '/removed-parameter-still-there')
+        env.check(M.eq(acc('side0', '_pf')['datainfo'].get('max'), hi), K + '/override-not-applied')
+        env.check(acc('sub2', '_pf')['datainfo'].get('max') == 100, K + '/sibling-defined-later-got-the-override', acc('sub2', '_pf')['datainfo'].get('max'))
     if h == 'diamond':
         le = acc('left0', '_pf')
         env.check(le['datainfo'].get('max') == 100 and le.get('readonly') is True, K + '/class-rewritten-by-a-class-inheriting-from-it', le)
